@@ -10,15 +10,18 @@ run_system(ctx, pid=None)
   4. every rejected trace / violated invariant is reported through ctx.violation with signature
      "system:<property>:<invariant or event>"; with pid given, only what is attributed to that property.
 
-Attribution of a rejected event to a property (the event is where the real driver left the specification):
-  StartReq, Exec Retry/Reprepare/AfterPrep, FireTimer(spec)   C17 (where and in which order requests are sent; C19's re-send)
-  Answer rows/invalid/overloaded, Drop, FireTimer(to)         C09 (handlers, stream ids) - C14 when only the outcome differs is
-                                                              not distinguished
-  Answer setks                                                C20
-  Kill                                                        C10
-  Exec host task, Fire, StatusEvent, SetMode                  C25
-  ShutdownA / ShutdownS / ShutdownE                           C45
-A violated invariant is attributed by its name (C14_OneOutcome -> C14, ...; TypeOK / PoolsAndConns -> C25).
+Attribution of a rejected event to a property.  The rejected runs are validated again with one part of the logged
+post-state left out at a time (Trace_Driver's constant Check); the part whose omission lets the event through is where
+the real driver left the specification:
+  errs (error map), att (attempts, plan, _connection/_req_id)   C17
+  out (state, outcome, number of outcomes, timer)               C14
+  ks (session / connection keyspaces)                           C20
+  conn (open, installed, handlers, orphans, owed, free ids)     C09; C10 when the event closes connections (Kill, PoolShut,
+                                                                AddPool, ShutdownS)
+  host (Hosts.tla's state: up/down, pools, reconnectors, tasks) C25; C45 from the first shutdown step on
+When no single part explains it, by the kind of event: StartReq / Retry / Reprepare / AfterPrep C17, Answer and Drop C09
+(setks C20), FireTimer C14 (speculative) or C09 (timeout), Kill C10, host tasks / Fire / StatusEvent / SetMode C25,
+Shutdown* C45.  A violated invariant is attributed by its name (C14_OneOutcome -> C14, ...; TypeOK / PoolsAndConns -> C25).
 """
 import copy
 import os
@@ -59,7 +62,7 @@ def owner_of_event(ev):
     if e in ("Drop",):
         return "C09"
     if e == "FireTimer":
-        return "C09"
+        return "C14" if src.get("kind") == "spec" else "C09"
     if e == "StartReq":
         return "C17"
     if e == "Exec":
@@ -79,6 +82,45 @@ def event_label(ev):
     elif e == "Answer":
         e += ":" + str(src.get("x"))
     return ("Anomaly:" if ev["e"] == "Anomaly" else "") + e
+
+
+PARTS = ("host", "conn", "out", "att", "errs", "ks")
+CLOSERS = ("Kill", "Exec:PoolShut", "Exec:AddPool", "ShutdownS")
+
+
+def owner_of_part(part, ev, phase_before):
+    if part in ("errs", "att"):
+        return "C17"
+    if part == "out":
+        return "C14"
+    if part == "ks":
+        return "C20"
+    if part == "conn":
+        return "C10" if event_label(ev) in CLOSERS else "C09"
+    return "C45" if (phase_before or 0) >= 1 or event_label(ev).startswith("Shutdown") else "C25"
+
+
+def localise(ctx, tconsts, rejected, pool):
+    """rejected: list of (trace, k).  Returns for each the parts of the post-state whose omission lets event k through."""
+    cut = [t[:k + 1] for t, k in rejected]
+    jobs = {}
+    for part in PARTS:
+        wd = os.path.join(ctx.scratch, "loc_" + part)
+        os.makedirs(wd, exist_ok=True)
+        cfg = tlc.write_cfg(os.path.join(wd, "loc.cfg"), init="TraceInit", next="TraceNext",
+                            constants=dict(tconsts, Check=set(PARTS) - {part}), constraints=["Progress"],
+                            postcondition="Done", deadlock=False)
+        jobs[part] = pool.submit(tlc.validate_traces, "Trace_Driver", cfg, cut, wd, timeout=600, heap="2g")
+    out = [[] for _ in rejected]
+    for part, f in jobs.items():
+        try:
+            _, prog = f.result()
+        except tlc.MachineryError:
+            continue
+        for i, (t, k) in enumerate(rejected):
+            if prog and prog[i] == k + 2:
+                out[i].append(part)
+    return out
 
 
 def stale_stream_id(t, k):
@@ -139,7 +181,7 @@ def run_system(ctx, pid=None):
         traces.append(ev)
     ctx.note("system_record_s", round(time.time() - t0, 1))
     tconsts = {"Hosts": set(dr.HOSTS), "MaxEvents": dr.MAX_EVENTS, "NReqs": nreqs, "MaxId": dr.MAXID,
-               "Keyspaces": set(dr.KEYSPACES), "Rots": {0, 1, 2}, "SpecMax": dr.SPECMAX}
+               "Keyspaces": set(dr.KEYSPACES), "Rots": {0, 1, 2}, "SpecMax": dr.SPECMAX, "Check": set(PARTS)}
     tcfg = tlc.write_cfg(os.path.join(ctx.scratch, "driver_trace.cfg"), init="TraceInit", next="TraceNext",
                          constants=tconsts, invariants=INV, constraints=["Progress"], postcondition="Done", deadlock=False)
     for f in witness_runs:
@@ -167,9 +209,9 @@ def run_system(ctx, pid=None):
             pool.shutdown(wait=False)
             return
         progress += prog
-    pool.shutdown(wait=True)
     accepted, by_sig, kinds = 0, {}, {}
     first_accepted = None
+    rejected = []
     for i, t in enumerate(traces):
         for e in t:
             kinds[event_label(e)] = kinds.get(event_label(e), 0) + 1
@@ -181,17 +223,34 @@ def run_system(ctx, pid=None):
             if sum(1 for e in t if e["e"] in ("Kill", "FireTimer") or (e["e"] == "Answer" and e["x"] != "rows")) >= 2:
                 ctx.nontrivial(("system", i, len(t)))
             continue
-        k = min(progress[i], len(t)) - 1
+        rejected.append((i, t, min(progress[i], len(t)) - 1))
+    # where did the real driver leave the specification?  (at most 60 rejected runs are localised)
+    loc = {}
+    todo = [(i, t, k) for i, t, k in rejected if t[k]["e"] != "Anomaly" and not stale_stream_id(t, k)][:60]
+    if todo:
+        parts = localise(ctx, tconsts, [(t, k) for _, t, k in todo], pool)
+        loc = {i: p for (i, _, _), p in zip(todo, parts)}
+    pool.shutdown(wait=True)
+    for i, t, k in rejected:
         ev = t[k]
-        own = owner_of_event(ev)
-        sig = STALE_SIG if stale_stream_id(t, k) else "system:%s:%s" % (own, event_label(ev))
-        if sig == STALE_SIG:
-            own = "C09"
+        phase_before = t[k - 1]["post"].get("phase") if k and "post" in t[k - 1] else 0
+        parts = loc.get(i, [])
+        if stale_stream_id(t, k):
+            own, sig = "C09", STALE_SIG
+        elif len(parts) == 1:
+            own = owner_of_part(parts[0], ev, phase_before)
+            sig = "system:%s:%s/%s" % (own, event_label(ev), parts[0])
+        else:
+            if ev["e"] == "FireTimer" and k:
+                ev = dict(ev, kind=t[k - 1]["post"]["reqs"][ev["r"] - 1]["timer"])
+            own = owner_of_event(ev)
+            sig = "system:%s:%s" % (own, event_label(ev))
         by_sig[sig] = by_sig.get(sig, 0) + 1
         if by_sig[sig] == 1 and report(own):
             shown = {x: y for x, y in ev.items() if x != "post"}
-            ctx.violation("whole-driver run %d rejected by Driver.tla at event %d: %s; the real objects afterwards: reqs=%s conns=%s"
-                          % (i, k + 1, shown, ev.get("post", {}).get("reqs"), ev.get("post", {}).get("conns")),
+            ctx.violation("whole-driver run %d rejected by Driver.tla at event %d: %s%s; the real objects afterwards: reqs=%s conns=%s"
+                          % (i, k + 1, shown, (" (differs in: %s)" % ",".join(parts)) if parts else "",
+                             ev.get("post", {}).get("reqs"), ev.get("post", {}).get("conns")),
                           replay={"system_trace": [{x: y for x, y in e.items() if x != "post"} for e in t[:k + 1]],
                                   "post_before": t[k - 1].get("post") if k else None, "post_after": ev.get("post")},
                           signature=sig)
